@@ -194,7 +194,8 @@ def document(op):
     pre = [T('mosID', env.get('mosID', 'mos.sim'))]
     if env.get('ncsID', True):
         pre.append(T('ncsID', 'ncs.sim'))
-    mid = T('messageID', str(op['mid']))
+    pad = env.get('mid_pad', ['', ''])
+    mid = T('messageID', pad[0] + str(op['mid']) + pad[1])      # white space around the number is legal
     extra = [T(x, 'x') for x in env.get('extra', [])]
     if env.get('mid_after'):
         ch = pre + extra + [me, mid]
